@@ -8,7 +8,7 @@ another connection's object id, graceful close) with hostile sessions: random by
 every offset, bit flips in header and payload (the C04 mutation corpus re-framed), corrupt and truncated compressed
 payloads, the length field 0xFFFFFFFF, several frames in one write, disconnecting at each point, failing, stalled and
 slow authentication (credentials sent by a later operation), connections reset right after the handshake (SO_LINGER 0,
-in bursts), well-formed requests that name builtin / foreign types for the sender's own objects and answer the server's
+in bursts), errors from the server's accept() injected between the clients' actions, well-formed requests that name builtin / foreign types for the sender's own objects and answer the server's
 class inspection with nothing, junk or dangerous method names (while well-behaved clients pass by-reference arguments of
 those builtin types - range, dict views, map, zip, enumerate, reversed, generators, memoryview, iterators, functions - to
 a service method that iterates, measures, indexes or calls them through callbacks, results checked; hostile clients also
@@ -69,9 +69,13 @@ TRUSTED = [
     "run time for the duration of a case, never in /repo)",
 ]
 ASSUMPTIONS = [
-    "descriptor / memory exhaustion (resource limits), and `spawn()` / `os.fork()` failing under thread or process limits "
-    "(they propagate out of `_accept_method` and end the accept loop), are out of scope; so is latency (the 0.2 s sleeps of "
-    "the pool's catch-alls under a stream of undecodable frames)",
+    "an `accept()` that fails - for lack of descriptors or buffers (EMFILE, ENOBUFS: a client only has to open connections "
+    "up to the limit), or because a connection was aborted while being set up (ECONNABORTED, EPROTO) - is IN scope: "
+    "operation `E`, injected through a wrapper around the server's listener (the real thing needs the process to run out of "
+    "descriptors: fixes/demo_C16_accept_error_kills_server.py part 2), obligation accept_survives_transient_errors, theorems "
+    "accept_fault_changes_nothing / run_ignores_accept_faults.  What else fails when a process is out of descriptors, "
+    "memory, threads or processes (`spawn()` / `os.fork()` failing in `_accept_method` propagate out of the accept loop) is "
+    "out of scope; so is latency (the 0.2 s sleeps of the pool's catch-alls under a stream of undecodable frames)",
     "`dict(self.protocol_config, ...)` is a shallow copy: mutable VALUES of a user-supplied protocol_config would be shared "
     "between connections; the harness's configurations have none",
     "a pool has at least one worker thread; server kinds of the quantifier: threaded, pool, forking",
@@ -247,6 +251,13 @@ def corpus():
         for n in range(nuses):
             toks += ["x1:%d:%d" % (n, n + 1), "u2:%d" % n, "x1:%d:%d" % (n + 7, n + 3), "u3:%d" % ((n + 5) % nuses)]
         out.append(case_dict(kind, "unix", False, 3, toks + ["p2", "p3"]))
+    for kind in KINDS:
+        # accept() fails (out of descriptors, a connection aborted while being set up, ...) with clients connected, between
+        # connects, twice in a row, with a hostile client around: the server goes on, everybody stays served, newcomers come in
+        for tr in ("tcp", "unix"):
+            out.append(case_dict(kind, tr, tr == "unix", 3, ["c1:g", "p1", "E", "p1", "c2:g", "p2", "E", "E", "p1", "p2", "c3:g",
+                                                             "r3:" + frame(b"\xff\xfe\xfd").hex(), "E", "p1", "c4:g", "p4",
+                                                             "l1", "E", "p2"]))
     pf = protocol_frames()
     for kind in KINDS:
         # every one of the protocol's own messages sent by a client that has no business sending it, each on a connection of
@@ -425,6 +436,8 @@ def gen_case(r, corp, kind=None):
             if k in stuck:
                 stuck.remove(k)
             toks.append(("z%d" if transport == "tcp" and r.chance(1, 2) else "a%d") % k)
+        if r.chance(1, 9):                                            # accept() fails once; the server goes on
+            toks.append("E")
         if r.chance(1, 2):                                            # the server still accepts
             connect_good()
             if len(good) > 3:
@@ -542,7 +555,7 @@ def correspondence(ctx):
             c.count("auth:" + ("yes" if case["auth"] else "no"))
             for t, l in zip(case["ops"], lines):
                 c.count("op:" + t[0])
-                if t[0] in "plou":
+                if t[0] in "plouw":
                     c.count("good-client-obs:" + l.split("|", 1)[0])
                 if t[0] == "r":
                     fr, tail = frames_of(bytes.fromhex(t.split(":")[1]))
@@ -579,10 +592,15 @@ def oracle_case(case, known=(), ceiling=servers.CEILING):
     try:
         hostile, holding, stalled = set(), set(), set()
         armed, in_hook, waiting = set(), set(), set()
+        faulted = False
         for i, tok in enumerate(case["ops"]):
             t = tok[0]
             if t == "X":
                 continue                 # not an operation of this property
+            if t == "E":
+                sess.do(tok)             # an error from accept(): an event of the environment
+                faulted = True
+                continue
             k = int(tok[1:].split(":")[0])
 
             where = "after op %d (%s): " % (i, tok[:60])
@@ -650,7 +668,9 @@ def oracle_case(case, known=(), ceiling=servers.CEILING):
             if k in hostile or k in waiting or obs == "skip":
                 continue
             if t == "c" and obs != "ok":
-                return where + "a well-behaved client could not connect: %s" % obs, "C16:%s:not-accepting" % kind
+                return (where + "a well-behaved client could not connect: %s%s"
+                        % (obs, " (after an error from accept())" if faulted else ""),
+                        "C16:%s:%s" % (kind, "accept-error-closes-server" if faulted else "not-accepting"))
             if t in "plodumw":
                 want = dict(p=("pong",), l=("ref",), o=("keyerr", "resolved"), d=("done",), u=("pong",), m=("done",),
                             w=("pong",))[t]
@@ -666,6 +686,8 @@ def oracle_case(case, known=(), ceiling=servers.CEILING):
                     if obs == "eof" and any(x[0] == "h" for x in case["ops"][:i]) and any(
                             x.count(":") == 2 and x[0] == "c" for x in case["ops"][:i]):
                         sig = "C16:pool:fd-reuse-drops-newcomer"
+                    if obs == "eof" and faulted:
+                        sig = "C16:%s:accept-error-closes-server" % kind
                     if t == "u":
                         sig = "C16:%s:good-client-wrong-result" % kind
                     if t == "w" and obs.startswith("wrong"):
@@ -689,7 +711,9 @@ def oracle_case(case, known=(), ceiling=servers.CEILING):
         # afterwards: the accept thread is alive and a new well-behaved client is served
         snap = sess.backend.snapshot()
         if not snap["A"] or not snap["L"]:
-            return "at the end: accept loop alive=%s listener open=%s" % (snap["A"], snap["L"]), "C16:%s:accept-dead" % kind
+            return ("at the end: accept loop alive=%s listener open=%s%s"
+                    % (snap["A"], snap["L"], " (after an error from accept())" if faulted else ""),
+                    "C16:%s:%s" % (kind, "accept-error-closes-server" if faulted else "accept-dead"))
         excuse = None
         if kind == "pool" and len(holding | in_hook) >= case["nb"]:
             excuse = SIG_STARVE
